@@ -560,8 +560,7 @@ type c02LCase struct {
 type c02LSuite struct {
 	Name        string     `json:"name"`
 	Mode        int        `json:"mode"`
-	OnlyConnect bool       `json:"onlyConnect"` // relevantProtocols [CONNECT]; otherwise Protos (not that list)
-	Protos      []int      `json:"protos"`
+	Protos      []int      `json:"protos"` // relevantProtocols, without repetitions (a repeated value expands the suite twice)
 	Codecs      []int      `json:"codecs"`
 	Tls         bool       `json:"tls"`
 	Certs       bool       `json:"certs"`
@@ -606,12 +605,8 @@ func c02LMsg(kind string, first, raw bool, k int) *anypb.Any {
 func c02LSuiteProto(sh c02LSuite) *conformancev1.TestSuite {
 	s := &conformancev1.TestSuite{Name: sh.Name, Mode: conformancev1.TestSuite_TestMode(sh.Mode), ReliesOnTls: sh.Tls,
 		ReliesOnTlsClientCerts: sh.Certs, ReliesOnConnectGet: sh.Get, ConnectVersionMode: conformancev1.TestSuite_ConnectVersionMode(sh.Cvm)}
-	if sh.OnlyConnect {
-		s.RelevantProtocols = []conformancev1.Protocol{conformancev1.Protocol_PROTOCOL_CONNECT}
-	} else {
-		for _, p := range sh.Protos {
-			s.RelevantProtocols = append(s.RelevantProtocols, conformancev1.Protocol(p))
-		}
+	for _, p := range sh.Protos {
+		s.RelevantProtocols = append(s.RelevantProtocols, conformancev1.Protocol(p))
 	}
 	for _, c := range sh.Codecs {
 		s.RelevantCodecs = append(s.RelevantCodecs, conformancev1.Codec(c))
@@ -639,8 +634,8 @@ func c02LSuiteProto(sh c02LSuite) *conformancev1.TestSuite {
 			case "fits":
 				tc.ExpandRequests = append(tc.ExpandRequests, &conformancev1.TestCase_ExpandedSize{SizeRelativeToLimit: proto.Int32(int32(len(tc.ExpandRequests)) - 1)})
 			case "misfit":
-				// below what removing all request data could reach, or below zero altogether
-				v := int32(-204000)
+				// a single byte — less than removing all request data leaves —, or below zero altogether
+				v := int32(-204799)
 				if len(tc.ExpandRequests)%2 == 1 {
 					v = -204801
 				}
@@ -710,6 +705,14 @@ func c02Load(in c02LoadIn) map[string]any {
 		}
 	}
 	names, err := cc.VerifC02Load(files, cfg, mode, true, true)
+	if len(in.Shapes) > 1 {
+		// the files are visited in map order: the verdict must not depend on it
+		for k := 0; k < 5; k++ {
+			if _, err2 := cc.VerifC02Load(files, cfg, mode, true, true); (err2 == nil) != (err == nil) {
+				return map[string]any{"class": "unstable"}
+			}
+		}
+	}
 	if err != nil {
 		return map[string]any{"class": "error"}
 	}
@@ -1655,6 +1658,16 @@ var c02LDefects = []struct {
 		d := c02LGoodSuite(r, ss[0].Name, r.Intn(3)) // a second file: also when it is for another mode
 		return append(ss, d)
 	}},
+	{"duplicate-suite-name-client-only", func(r *gen.Rand, ss []c02LSuite) []c02LSuite {
+		d := c02LGoodSuite(r, ss[0].Name, 1) // skipped unless the run is in client mode: still a duplicate
+		d.Mode = 1
+		return append(ss, d)
+	}},
+	{"duplicate-suite-name-server-only", func(r *gen.Rand, ss []c02LSuite) []c02LSuite {
+		d := c02LGoodSuite(r, ss[0].Name, 2)
+		d.Mode = 2
+		return append(ss, d)
+	}},
 	{"other-mode-only", func(r *gen.Rand, ss []c02LSuite) []c02LSuite {
 		for i := range ss {
 			ss[i].Mode = 1 + r.Intn(2) // against mode unspecified / the other one: "no test cases apply"
@@ -1663,13 +1676,22 @@ var c02LDefects = []struct {
 	}},
 	{"certs-without-tls", func(r *gen.Rand, ss []c02LSuite) []c02LSuite { ss[0].Certs = true; return ss }},
 	{"tls", func(r *gen.Rand, ss []c02LSuite) []c02LSuite { ss[0].Tls, ss[0].Certs = true, r.Bool(); return ss }},
-	{"get", func(r *gen.Rand, ss []c02LSuite) []c02LSuite { ss[0].Get, ss[0].OnlyConnect = true, r.Chance(2, 3); return ss }},
+	{"get", func(r *gen.Rand, ss []c02LSuite) []c02LSuite {
+		ss[0].Get = true
+		if r.Chance(2, 3) {
+			ss[0].Protos = []int{1}
+		}
+		return ss
+	}},
 	{"get-with-connect-among-others", func(r *gen.Rand, ss []c02LSuite) []c02LSuite {
-		ss[0].Get, ss[0].OnlyConnect, ss[0].Protos = true, false, gen.Pick(r, [][]int{{1, 2}, {1, 1}, {}})
+		ss[0].Get, ss[0].Protos = true, gen.Pick(r, [][]int{{1, 2}, {3, 1}, {}, {2}})
 		return ss
 	}},
 	{"connect-version-mode", func(r *gen.Rand, ss []c02LSuite) []c02LSuite {
-		ss[0].Cvm, ss[0].OnlyConnect = 1+r.Intn(2), r.Bool()
+		ss[0].Cvm = 1 + r.Intn(2)
+		if r.Bool() {
+			ss[0].Protos = []int{1}
+		}
 		return ss
 	}},
 	{"codecs-not-configured", func(r *gen.Rand, ss []c02LSuite) []c02LSuite { ss[0].Codecs = []int{3}; return ss }},
@@ -1702,6 +1724,9 @@ func c02LoadShapes(r *gen.Rand, thorough bool) []c02LoadIn {
 	}
 	for k := 0; k < n; k++ {
 		d1, d2 := gen.Pick(r, c02LDefects), gen.Pick(r, c02LDefects)
+		if d1.name == "suite-no-cases" {
+			d1, d2 = d2, d1 // the others look at the first case
+		}
 		m := r.Intn(3)
 		out = append(out, c02LoadIn{Mode: modes[m], Note: d1.name + "+" + d2.name, Shapes: d2.apply(r, d1.apply(r, base(m)))})
 	}
